@@ -21,7 +21,7 @@ from fractions import Fraction
 from .sorts import (Int, Real, Float, Bool, Str, CSet, Ballot, Profile, Seq, Opt, Dict, Tup, Obj, NoneS, Fn, StateRef, TBDictS)  # noqa: F401
 
 __all__ = ["contract", "spec", "REGISTRY", "Int", "Real", "Float", "Bool", "Str", "CSet", "Ballot", "Profile", "Seq",
-           "Opt", "Dict", "Tup", "Obj", "NoneS", "Fn", "StateRef", "TBDictS", "implies", "Fraction", "lemma", "floor", "div", "dsum", "reversed_seq", "tb_value"]
+           "Opt", "Dict", "Tup", "Obj", "NoneS", "Fn", "StateRef", "TBDictS", "implies", "Fraction", "lemma", "floor", "div", "dsum", "reversed_seq", "tb_value", "the"]
 
 
 def implies(a, b):
@@ -31,6 +31,12 @@ def implies(a, b):
 def floor(x):
     import math
     return math.floor(x)
+
+
+def the(s):
+    """the member of a one-element set"""
+    (x,) = tuple(s)
+    return x
 
 
 def tb_value(state):
@@ -288,7 +294,7 @@ def spec(fn=None, *, opaque=False):
     return deco(fn) if fn is not None else deco
 
 
-def lemma(fn=None, *, induct=None, hint=None):
+def lemma(fn=None, *, induct=None, hint=None, unfold=2):
     """an SMT lemma: the body returns a formula valid for all arguments (sorts from the
     annotations).  Proved once per run, by induction on the Int parameter `induct` when given
     (base: induct <= 0; step: the formula at induct-1 with the other arguments unchanged is the
@@ -297,6 +303,7 @@ def lemma(fn=None, *, induct=None, hint=None):
         info = SpecInfo(f)
         info.is_lemma = True
         info.induct = induct
+        info.unfold = unfold
         REGISTRY.specs[f.__name__] = info
         REGISTRY.lemmas.append(info)
         f._spec = info
